@@ -90,9 +90,12 @@ func (server *Server) SMembers(conn *redis.Conn, key string) (*redis.Message, er
 	if err != nil {
 		return nil, err
 	}
-	_, set, err := db.GetSetRecord(key)
+	set, ok, err := db.LookupSetRecord(key)
 	if err != nil {
 		return nil, err
+	}
+	if !ok {
+		return redis.NewArrayMessage(), nil
 	}
 	arrayMsg := redis.NewArrayMessage()
 	array, _ := arrayMsg.Array()
@@ -108,9 +111,16 @@ func (server *Server) SRem(conn *redis.Conn, key string, members []string) (*red
 	if err != nil {
 		return nil, err
 	}
-	_, set, err := db.GetSetRecord(key)
+	set, ok, err := db.LookupSetRecord(key)
 	if err != nil {
 		return nil, err
 	}
-	return redis.NewIntegerMessage(set.Rem(members)), nil
+	if !ok {
+		return redis.NewIntegerMessage(0), nil
+	}
+	removed := set.Rem(members)
+	if len(set.Members()) == 0 {
+		db.RemoveRecord(key)
+	}
+	return redis.NewIntegerMessage(removed), nil
 }
